@@ -70,6 +70,20 @@ namespace c17
     constexpr int dim = Shape_::dimension;
     MeshSpec ms = gen_mesh<Shape_>(t, o.max_cells);
     int mesh_perm = t.pick({ 6, 3, 1, 1, 1, 1 });
+    // domain fact (not C17's subject, bycatch noted in findings/C17.md): the algebraic Cuthill-McKee mesh permutations
+    // (MeshPermutation::create_cmk -> CuthillMcKee::compute with RootType::minimum_degree on an 'injectify' graph that
+    // keeps duplicates and self-loops) abort with "No root node found!" as soon as every unprocessed cell has
+    // degree-with-duplicates >= num_cells + 1, e.g. a 2-cell line; cmk permutations are only requested when no cell
+    // reaches that degree
+    if(mesh_perm == 2 || mesh_perm == 3)
+    {
+      Adj a0(ms);
+      for(Index cl = 0; cl < ms.nc() && mesh_perm != 0; ++cl)
+      {
+        std::size_t deg = 0; for(int l = 0; l < ms.nvc; ++l) deg += a0.cells_at_vert[ms.cells[cl * Index(ms.nvc) + Index(l)]].size();
+        if(deg >= std::size_t(ms.nc()) + 1u) mesh_perm = 0;
+      }
+    }
     auto mesh = build_mesh<Shape_>(ms);
     if(mesh_perm != 0)
     {
@@ -166,10 +180,10 @@ namespace c17
   inline void add_sched_targets(std::vector<vf::Target>& tg, const std::string& prefix)
   {
     // tiny: 1..16 cells, every worker-count class equally likely (0, 1, 2.., > cells)
-    tg.push_back({ prefix + "tiny", [](Tape& t, Ctx& c) { SchedOpts o; o.max_cells = 16; o.threaded_bias = false; sched_dispatch(t, c, o); }, 96, 2, 60000 });
+    tg.push_back({ prefix + "tiny", [](Tape& t, Ctx& c) { SchedOpts o; o.max_cells = 16; o.threaded_bias = false; sched_dispatch(t, c, o); }, 80, 0, 60000 });
     // sched: up to 1024 cells, mostly >= 2 workers, skewed schedules
-    tg.push_back({ prefix + "sched", [](Tape& t, Ctx& c) { SchedOpts o; o.max_cells = 1024; o.threaded_bias = true; sched_dispatch(t, c, o); }, 96, 2, 60000 });
+    tg.push_back({ prefix + "sched", [](Tape& t, Ctx& c) { SchedOpts o; o.max_cells = 1024; o.threaded_bias = true; sched_dispatch(t, c, o); }, 80, 0, 60000 });
     // big: up to 4096 cells (thorough tier)
-    tg.push_back({ prefix + "big", [](Tape& t, Ctx& c) { SchedOpts o; o.max_cells = 4096; o.threaded_bias = true; sched_dispatch(t, c, o); }, 96, 2, 60000 });
+    tg.push_back({ prefix + "big", [](Tape& t, Ctx& c) { SchedOpts o; o.max_cells = 4096; o.threaded_bias = true; sched_dispatch(t, c, o); }, 80, 0, 60000 });
   }
 } // namespace c17
